@@ -575,7 +575,7 @@ def run_fault(tier, seed):
             if text.startswith('count '): n = int(text.split(' ')[1])
         c.rmtree(d)
         if n <= 0: raise Broken('no eligible calls counted')
-        step = 5 if tier == 'quick' else 1
+        step = (2 if wenv else 5) if tier == 'quick' else 1      # reopen workloads: failures inside ldb_open are the point, sample densely
         jobs = []
         for k in range(1, n + 1, step):
             variants = [(0, ENOSPC), (1, ENOSPC)] if tier == 'quick' else [(0, ENOSPC), (1, ENOSPC), (0, EIO), (1, EIO)]
@@ -627,15 +627,20 @@ def run_fault(tier, seed):
                     if e['e'] == 'Reset': fault = None
                     if e['e'] == 'fault': fault = e
                 # reproduce that single site
-                r2 = fault_run(exe, wseed, bits, nb, site['endmode'], site['k'], site['persist'], site['errno'], extra_env=wenv)
+                # (the k-th call of a run with background threads is not always the same call: neighbouring k are tried as well)
                 rep = False
-                if 'events' in r2:
-                    rr, tp2, _ = tv([r2['events']])
-                    rep = not rr['accepted']
-                elif 'fail' in r2:
-                    rep = True
+                for dk in (0, 0, 1, -1, 2, -2):
+                    r2 = fault_run(exe, wseed, bits, nb, site['endmode'], max(1, site['k'] + dk), site['persist'], site['errno'], extra_env=wenv)
+                    if 'events' in r2:
+                        rr, tp2, _ = tv([r2['events']])
+                        rep = not rr['accepted']
+                    elif 'fail' in r2:
+                        rep = True
+                    if rep: break
                 if not rep:
-                    raise Broken('FaultTrace rejection did not repeat for site %s' % site)
+                    rd = c.replay_dir(prop, 'unrepeated'); shutil.copy(tp, os.path.join(rd, 'trace.ndjson'))
+                    json.dump(dict(kind='fault', workload=dict(seed=wseed, bits=bits, nb=nb), site=site, violated=r['violated'], event=bad, fault=fault), open(os.path.join(rd, 'replay.json'), 'w'), indent=1)
+                    raise Broken('FaultTrace rejection did not repeat for site %s (kept in %s)' % (site, rd))
                 rd = c.replay_dir(prop, 'fault')
                 shutil.copy(tp, os.path.join(rd, 'trace.ndjson'))
                 json.dump(dict(kind='fault', workload=dict(seed=wseed, bits=bits, nb=nb), site=site, violated=r['violated'], event=bad, fault=fault,
